@@ -1,16 +1,14 @@
 //! implrun <family> : one case per stdin line, one canonical observation per stdout line.
 //! Every case runs under catch_unwind; a panic is the observation `panic`.
-mod c23;
 mod util;
+include!(concat!(env!("OUT_DIR"), "/mods.rs"));
 
 use std::io::{BufRead, Write};
 
 type Family = fn(&str) -> String;
 
 fn families() -> Vec<(&'static str, Family)> {
-    let mut v: Vec<(&'static str, Family)> = Vec::new();
-    v.extend(c23::families());
-    v
+    all_families()
 }
 
 fn main() {
